@@ -49,6 +49,12 @@ type scenario struct {
 	run    func(p ThreadPool, size int, seed int64) result
 }
 
+// scenarios whose pooled run must come BEFORE the sequential one (lazily built shared tables are cold only once)
+var parFirstAlways = map[string]bool{"smix-poisson-cold": true}
+
+// grows with every run of the cold-table scenario, so that each run needs table entries nobody has asked for yet
+var coldOffset = 0
+
 // ------------------------------------------------------------------ data
 
 func normalData(rng *rand.Rand, n int) []float64 {
@@ -591,6 +597,142 @@ func structuredHmm(kind string) func(ThreadPool, int, int64) result {
 	}
 }
 
+func sparseOf(x []float64) ConstVector {
+	idx := []int{}
+	val := []float64{}
+	for i, v := range x {
+		if v != 0 {
+			idx = append(idx, i)
+			val = append(val, v)
+		}
+	}
+	return NewSparseFloat64Vector(idx, val, len(x))
+}
+
+// ONE sequence, handed over as a sparse vector with positions that are not stored: reading it must not write it
+func sparseHmm(p ThreadPool, size int, seed int64) result {
+	rng := rand.New(rand.NewSource(seed))
+	liks := []float64{}
+	hook := generic.BaumWelchHook{Value: func(h generic.BasicHmm, i int, l, e float64) {
+		if i > 0 {
+			liks = append(liks, l)
+		}
+	}}
+	pi := NewDenseFloat64Vector([]float64{0.6, 0.4})
+	tr := NewDenseFloat64Matrix([]float64{0.7, 0.3, 0.4, 0.6}, 2, 2)
+	est, err := vectorEstimator.NewHmmEstimator(pi, tr, nil, nil, nil, categoricals(), 0.0, 3, hook)
+	if err != nil {
+		return result{Err: "construct: " + err.Error()}
+	}
+	x := sparseOf(binary(rng, 20+6*size))
+	if err := est.EstimateOnData([]ConstVector{x}, nil, p); err != nil {
+		return result{Err: err.Error(), Liks: liks}
+	}
+	d, err := est.GetEstimate()
+	if err != nil {
+		return result{Err: err.Error(), Liks: liks}
+	}
+	return result{Params: params(d), Liks: liks}
+}
+
+// scalar mixture on a sparse data vector (counts with many zeros)
+func sparseMixture(p ThreadPool, size int, seed int64) result {
+	rng := rand.New(rand.NewSource(seed))
+	liks := []float64{}
+	hook := generic.EmHook{Value: func(m generic.BasicMixture, i int, l, e float64) {
+		if i > 0 {
+			liks = append(liks, l)
+		}
+	}}
+	est, err := scalarEstimator.NewMixtureEstimator([]float64{1, 2}, poissons(), 0.0, 3, hook)
+	if err != nil {
+		return result{Err: "construct: " + err.Error()}
+	}
+	raw := countData(rng, 12+3*size, 5)
+	for i := range raw {
+		if i%3 != 0 {
+			raw[i] = 0
+		}
+	}
+	if err := est.EstimateOnData(sparseOf(raw), nil, p); err != nil {
+		return result{Err: err.Error(), Liks: liks}
+	}
+	d, err := est.GetEstimate()
+	if err != nil {
+		return result{Err: err.Error(), Liks: liks}
+	}
+	return result{Params: params(d), Liks: liks}
+}
+
+// Poisson components evaluated at counts no earlier run has asked for (tables built on demand are cold),
+// pooled run first
+func coldPoissonMixture(p ThreadPool, size int, seed int64) result {
+	rng := rand.New(rand.NewSource(seed))
+	liks := []float64{}
+	hook := generic.EmHook{Value: func(m generic.BasicMixture, i int, l, e float64) {
+		if i > 0 {
+			liks = append(liks, l)
+		}
+	}}
+	off := float64(coldOffset)
+	e1, _ := scalarEstimator.NewPoissonEstimator(off + 1)
+	e2, _ := scalarEstimator.NewPoissonEstimator(off + 5)
+	est, err := scalarEstimator.NewMixtureEstimator([]float64{1, 2}, []ScalarEstimator{e1, e2}, 0.0, 3, hook)
+	if err != nil {
+		return result{Err: "construct: " + err.Error()}
+	}
+	raw := countData(rng, 24+3*size, 9)
+	for i := range raw {
+		raw[i] += off
+	}
+	if err := est.EstimateOnData(NewDenseFloat64Vector(raw), nil, p); err != nil {
+		return result{Err: err.Error(), Liks: liks}
+	}
+	d, err := est.GetEstimate()
+	if err != nil {
+		return result{Err: err.Error(), Liks: liks}
+	}
+	return result{Params: params(d), Liks: liks}
+}
+
+// outer mixture whose components are CLONES of one inner mixture estimator, configured differently after
+// cloning (one keeps its weights fixed): the clones are estimated concurrently by the M-step
+func clonedNestedMixture(p ThreadPool, size int, seed int64) result {
+	rng := rand.New(rand.NewSource(seed))
+	liks := []float64{}
+	hook := generic.EmHook{Value: func(m generic.BasicMixture, i int, l, e float64) {
+		if i > 0 {
+			liks = append(liks, l)
+		}
+	}}
+	e1, _ := scalarEstimator.NewNormalEstimator(-1, 1.5, 1e-2)
+	e2, _ := scalarEstimator.NewNormalEstimator(1, 1.5, 1e-2)
+	inner := generic.EmHook{} // an optional argument, so that the prototype owns an args slice
+	proto, err := scalarEstimator.NewMixtureEstimator([]float64{1, 3}, []ScalarEstimator{e1, e2}, 1e-8, -1, inner)
+	if err != nil {
+		return result{Err: "construct: " + err.Error()}
+	}
+	comps := make([]ScalarEstimator, 4)
+	for i := range comps {
+		c := proto.CloneScalarEstimator().(*scalarEstimator.MixtureEstimator)
+		c.OptimizeWeights = i%2 == 0
+		comps[i] = c
+	}
+	est, err := scalarEstimator.NewMixtureEstimator([]float64{1, 1, 1, 1}, comps, 0.0, 3, hook)
+	if err != nil {
+		return result{Err: "construct: " + err.Error()}
+	}
+	x := NewDenseFloat64Vector(normalData(rng, 16+size))
+	if err := est.EstimateOnData(x, nil, p); err != nil {
+		return result{Err: err.Error(), Liks: liks}
+	}
+	d, err := est.GetEstimate()
+	if err != nil {
+		return result{Err: err.Error(), Liks: liks}
+	}
+	return result{Params: params(d), Liks: liks}
+}
+
 func scenarios() []scenario {
 	return []scenario{
 		{"vhmm-nested-mixture", "", hmmScenario(nestedMixtures, normalData, nil, nil)},
@@ -629,6 +771,10 @@ func scenarios() []scenario {
 		{"mhmm-scalarid", "bw", matrixHmm(0)},
 		{"mhmm-scalarid-chunked", "", matrixHmm(2)},
 		{"mmix-vectorid", "em", matrixMixture},
+		{"vhmm-categorical-sparse1", "", sparseHmm},
+		{"smix-poisson-sparse", "", sparseMixture},
+		{"smix-poisson-cold", "", coldPoissonMixture},
+		{"smix-cloned-mixtures", "", clonedNestedMixture},
 		{"vhmm-constrained", "bw", structuredHmm("constrained")},
 		{"vhmm-hierarchical", "bw", structuredHmm("hierarchical")},
 	}
@@ -783,21 +929,43 @@ func main() {
 		}
 		jcfg := vh.M{"scenario": sc.name, "w": w, "b": b, "size": size, "procs": procs, "seed": rseed}
 		// journal: a crash of the process (panic in a pool goroutine, fatal error) is attributed to this run
-		out.Put(vh.M{"kind": "journal", "stage": "seq", "index": runIdx, "config": jcfg})
-		out.Flush()
-		seq, _ := runGuarded(sc, ThreadPool{}, size, rseed, limit)
-		out.Put(vh.M{"kind": "journal", "stage": "par", "index": runIdx, "config": jcfg})
-		out.Flush()
-		trace.Flush()
-		old := runtime.GOMAXPROCS(procs)
-		rec := &recorder{rng: rand.New(rand.NewSource(rseed + 17)), delay: true, w: w, b: b, used: map[int]bool{}}
-		if sc.hooked != "" {
-			generic.VerifHook = rec.hook
+		// half of the differential runs (and every run of the cold-table scenarios) take the pooled run first
+		parFirst := parFirstAlways[sc.name] || (!traced && runIdx%2 == 1)
+		var seq, par result
+		var timedOut bool
+		var rec *recorder
+		var pool ThreadPool
+		runSeq := func() {
+			out.Put(vh.M{"kind": "journal", "stage": "seq", "index": runIdx, "config": jcfg})
+			out.Flush()
+			seq, _ = runGuarded(sc, ThreadPool{}, size, rseed, limit)
 		}
-		pool := New(w, b)
-		par, timedOut := runGuarded(sc, pool, size, rseed, limit)
-		generic.VerifHook = nil
-		runtime.GOMAXPROCS(old)
+		runPar := func() {
+			out.Put(vh.M{"kind": "journal", "stage": "par", "index": runIdx, "config": jcfg})
+			out.Flush()
+			trace.Flush()
+			old := runtime.GOMAXPROCS(procs)
+			rec = &recorder{rng: rand.New(rand.NewSource(rseed + 17)), delay: true, w: w, b: b, used: map[int]bool{}}
+			if sc.hooked != "" {
+				generic.VerifHook = rec.hook
+			}
+			pool = New(w, b)
+			par, timedOut = runGuarded(sc, pool, size, rseed, limit)
+			generic.VerifHook = nil
+			runtime.GOMAXPROCS(old)
+		}
+		if sc.name == "smix-poisson-cold" {
+			coldOffset += 9
+		}
+		if parFirst {
+			runPar()
+			if !timedOut {
+				runSeq()
+			}
+		} else {
+			runSeq()
+			runPar()
+		}
 		cfg := vh.M{"scenario": sc.name, "w": w, "b": b, "size": size, "procs": procs, "seed": rseed}
 		if timedOut {
 			vh.Mismatch(out, vh.M{"engine": "pool", "what": "deadlock_or_timeout", "scenario": sc.name}, vh.M{"config": cfg, "limit_s": limit.Seconds()})
